@@ -26,6 +26,9 @@ def c30(tier, seed):
     # C: some tuples travel as contextual tuples of the request
     for m in (["ttu", "wildcard", "condition"] if q else MODELS_ALL):
         jobs.append(J(CMDS, "VerifE30Expand", model=m, maxcands=12, ctx=3, seed=(seed + 1) % 7, timeout_ms=60000, unwind=64, max_paths=20000))
+    # E: two Expand requests in a row on one Server (real handler): nothing of the first request's contextual tuples
+    # survives into the second answer
+    jobs.append(J("pkg/server", "VerifK30bExpandSequence", timeout_ms=60000))
     # D: the contextual tuples are ALSO stored (nothing rejects a contextual tuple that repeats a stored one): a user is
     # still listed once
     for m in (["direct", "wildcard", "userset"] if q else ["direct", "wildcard", "userset", "ttu", "exclusion", "condition"]):
